@@ -144,7 +144,8 @@ Theorem flags_win profile o r : apply_profile profile o = Ok r ->
   (forall v, o_pow o = Some v -> o_pow r = Some v) /\
   (forall v, o_persistent o = Some v -> o_persistent r = Some v) /\
   (forall v, o_wipe_passes o = Some v -> o_wipe_passes r = Some v) /\
-  (forall v, o_rotation o = Some v -> o_rotation r = Some v).
+  (forall v, o_rotation o = Some v -> o_rotation r = Some v) /\
+  (forall v, o_fetch_parallel o = Some v -> o_fetch_parallel r = Some v).
 Proof.
   unfold apply_profile. destruct (negb (is_obj profile)); [discriminate|]. intros H.
   apply bind_ok in H. destruct H as [persistent [H1 H]].
@@ -156,6 +157,7 @@ Proof.
   apply bind_ok in H. destruct H as [min_ttl [H7 H]].
   apply bind_ok in H. destruct H as [max_ttl [H8 H]].
   apply bind_ok in H. destruct H as [rotation [H9 H]].
+  apply bind_ok in H. destruct H as [fetch_parallel [H11 H]].
   apply bind_ok in H. destruct H as [pow [H10 H]].
   inversion H; subst r. cbn.
   repeat split; intros v Hv.
@@ -167,6 +169,7 @@ Proof.
   - eapply fill_int_keeps; eassumption.
   - eapply fill_int_keeps; eassumption.
   - rewrite Hv in H1. inversion H1. reflexivity.
+  - eapply fill_int_keeps; eassumption.
   - eapply fill_int_keeps; eassumption.
   - eapply fill_int_keeps; eassumption.
 Qed.
@@ -325,7 +328,7 @@ Definition n_default := [100; 101; 102; 97; 117; 108; 116].
 Definition n_base := [98; 97; 115; 101].
 Definition w_doc := VObj [(k_profiles, VObj [(100, VObj [(k_extends, VStr n_base); (k_storage, VObj [(k_wipe_passes_dash, VInt 255)])]);
                                               (101, w_base)])].
-Definition no_flags := mkOptions None None None None None None None None None None.
+Definition no_flags := mkOptions None None None None None None None None None None None.
 Theorem loader_witness : exists r, load w_doc [(n_default, 100); (n_base, 101)] None None [] no_flags = Ok r /\ o_wipe_passes r = Some 155.
 Proof. eexists. split; vm_compute; reflexivity. Qed.
 (* with one spelling in both layers the descendant wins *)
